@@ -569,7 +569,7 @@ pub fn run(ctx: &Ctx) -> Report {
     }, &mut st);
     rep.push(v);
 
-    let v = search(ctx, "expr", ctx.tier.pick(100_000, 2_000_000), || tree(5), |e: &E, st| {
+    let v = search(ctx, "expr", ctx.tier.pick(400_000, 4_000_000), || tree(5), |e: &E, st| {
         st.eval();
         if has_mixed_precedence(e) {
             st.nontrivial(e);
@@ -585,7 +585,7 @@ pub fn run(ctx: &Ctx) -> Report {
     }, &mut st);
     rep.push(v);
 
-    let v = search(ctx, "query", ctx.tier.pick(30_000, 300_000), query, |q: &Q, st| {
+    let v = search(ctx, "query", ctx.tier.pick(100_000, 1_000_000), query, |q: &Q, st| {
         st.eval();
         let interesting = match q {
             Q::Select(s) => is_join(s) || !s.conds.is_empty(),
